@@ -172,6 +172,9 @@ pub struct FeSession {
     pub need_reply: bool,
     pub policy: Policy,
     pub adapter_mutex: bool,
+    /// extra bits the caller passes to set_hdr_flags (version / reserved bits): the header
+    /// constructor must not let them reach the wire
+    pub hdr_noise: u32,
 }
 
 /// Frontend-side view of the negotiation (what the frontend endpoint knows).
@@ -349,6 +352,12 @@ pub fn gen_fe_session(t: &mut Tape, o: &FeGen) -> FeSession {
         need_reply,
         policy,
         adapter_mutex,
+        hdr_noise: match t.draw(4) {
+            0 => 0x3,
+            1 => !0xfu32,
+            2 => (1u32 << (4 + t.draw(28))) | 0x2,
+            _ => 0,
+        },
     }
 }
 
@@ -430,6 +439,7 @@ pub fn run_fe_session(sim: &Sim, sess: &FeSession, seg_faults: bool) -> FeResult
     };
     let reqs: Vec<FReq> = sess.items.iter().map(|i| i.req.clone()).collect();
     let need_reply = sess.need_reply;
+    let hdr_noise = sess.hdr_noise;
     let ops_out = Arc::new(Mutex::new(Vec::<OpRes>::new()));
     let oo = ops_out.clone();
     let sim3 = sim.clone();
@@ -445,8 +455,9 @@ pub fn run_fe_session(sim: &Sim, sess: &FeSession, seg_faults: bool) -> FeResult
     };
     let caller = sim.spawn("caller", "caller", move || {
         let mut fe = Frontend::from_stream(fe_sock, MAXQ);
-        if need_reply {
-            fe.set_hdr_flags(VhostUserHeaderFlag::NEED_REPLY);
+        if need_reply || hdr_noise != 0 {
+            let nr = if need_reply { VhostUserHeaderFlag::NEED_REPLY.bits() } else { 0 };
+            fe.set_hdr_flags(VhostUserHeaderFlag::from_bits_retain(nr | hdr_noise));
         }
         for req in reqs.iter() {
             let lent = Lent::for_req(req);
